@@ -147,6 +147,11 @@ func (pq *PrefetchQueue) processPrefetch(req PrefetchRequest) {
 	// NS/DS lookups, which always query with DO set. CD is preserved
 	// from the copy (it is the cache key and the validation opt-out).
 	if opt := prefetchReq.IsEdns0(); opt != nil {
+		// Only shared entries are refreshed, and the result replaces the entry
+		// under its shared key: the refresh must be audience-neutral. Without
+		// this the triggering client's (clamped) subnet goes upstream and a
+		// SCOPE>0 answer tailored to it is served to everyone.
+		opt.Option = dropSubnetOptions(opt.Option)
 		opt.SetDo(true)
 	} else {
 		prefetchReq.SetEdns0(dnsutil.DefaultMsgSize, true)
@@ -234,6 +239,18 @@ func (pq *PrefetchQueue) processPrefetch(req PrefetchRequest) {
 	} else {
 		zlog.Debug("Prefetch completed", "query", dnsutil.FormatQuestion(req.Request.Question[0]), "rcode", dns.RcodeToString[resp.Rcode])
 	}
+}
+
+// dropSubnetOptions returns opts without EDNS Client Subnet options.
+func dropSubnetOptions(opts []dns.EDNS0) []dns.EDNS0 {
+	kept := opts[:0:0]
+	for _, o := range opts {
+		if _, ok := o.(*dns.EDNS0_SUBNET); ok {
+			continue
+		}
+		kept = append(kept, o)
+	}
+	return kept
 }
 
 // releasePrefetchClaim clears the prefetch flag so future
